@@ -53,6 +53,8 @@ SPEC = [
     ("forms.py", ["get_checkBox_entry", "get_ddList_entry"]),
     ("bullets_and_numbering.py", ["BulletGenerator._get_numPr", "BulletGenerator._get_numId", "BulletGenerator._get_ilvl",
                                   "BulletGenerator.get_bullet_fmt"]),
+    ("namespace.py", ["find_by_qn", "findall_by_qn"]),
+    ("docx_context.py", ["NumIdAttrs", "collect_numAttrs"]),
 ]
 
 EXN = {"ValueError", "KeyError", "IndexError", "TypeError", "AttributeError", "StopIteration"}
@@ -67,7 +69,8 @@ EXTERNAL = {"get_prefixed_tag": "ptag", "get_localname": "localname"}
 EXTERNAL_FN = {"get_html_formatting": 2, "find_parent_by_qn": 2}
 METHODS = {("join", 1): "py_join", ("replace", 2): "py_replace", ("upper", 0): "py_upper",
            ("split", 0): "py_split_ws", ("get", 1): "py_dict_get", ("get", 2): "py_dict_get2",
-           ("split", 1): "py_split_on", ("iterfind", 1): "py_iterfind"}
+           ("split", 1): "py_split_on", ("iterfind", 1): "py_iterfind",
+           ("find", 1): "py_find", ("findall", 1): "py_findall"}
 CMP = {ast.Lt: "py_lt", ast.Gt: "py_gt", ast.LtE: "py_le", ast.GtE: "py_ge", ast.Eq: "py_eq",
        ast.NotEq: "py_ne"}
 BIN = {ast.Add: "py_add", ast.Sub: "py_sub", ast.Mult: "py_mul"}
@@ -468,9 +471,24 @@ class Fn:
             die(e, f"unsupported expression {type(e).__name__}")
 
         def call(e: ast.Call) -> str:
+            f = e.func
+            if isinstance(f, ast.Name) and f.id in self.tr.dataclasses and f.id not in env:
+                # a plain dataclass: an object holding its fields (positional or keyword arguments, all required)
+                fields = self.tr.dataclasses[f.id]
+                vals = {}
+                if len(e.args) > len(fields):
+                    die(e, f"too many arguments for {f.id}(...)")
+                for name, a in zip(fields, e.args):
+                    vals[name] = go(a)
+                for kw in e.keywords:
+                    if kw.arg is None or kw.arg not in fields or kw.arg in vals:
+                        die(e, f"bad keyword argument for {f.id}(...)")
+                    vals[kw.arg] = go(kw.value)
+                if set(vals) != set(fields):
+                    die(e, f"{f.id}(...) must be given every field")
+                return f"(VObj {coq_str(f.id)} [" + "; ".join(f"({coq_str(n)}, {vals[n]})" for n in fields) + "])"
             if e.keywords:
                 die(e, "keyword arguments are not translated")
-            f = e.func
             if isinstance(f, ast.Name):
                 if f.id == "cast":
                     if len(e.args) != 2:
@@ -922,6 +940,7 @@ class Translator:
         self.ext_params = {}      # python function name -> externals it needs as leading parameters
         self.defaults = {}        # function name -> (number of parameters, default expressions)
         self.method_arity = {}    # Class.method -> number of parameters (self included)
+        self.dataclasses = {}     # class name -> field names (plain dataclasses without defaults or methods)
         self.may_raise = {"StopIteration": set()}   # translated functions that contain next() / raise StopIteration
         self.str_dispatch_fuelled = False
         self.out = []
@@ -996,6 +1015,21 @@ class Translator:
         raise Reject(f"{mod}: {qual} not found exactly once")
 
     def one(self, tree, mod, qual) -> str:
+        cls = [n for n in tree.body if isinstance(n, ast.ClassDef) and n.name == qual]
+        if len(cls) == 1:
+            c = cls[0]
+            if [ast.unparse(d) for d in c.decorator_list] != ["dataclasses.dataclass"] or c.bases:
+                raise Reject(f"{mod}: {qual} is not a plain @dataclasses.dataclass")
+            fields = []
+            for st in c.body:
+                if isinstance(st, ast.Expr) and isinstance(st.value, ast.Constant) and isinstance(st.value.value, str):
+                    continue
+                if isinstance(st, ast.AnnAssign) and isinstance(st.target, ast.Name) and st.value is None:
+                    fields.append(st.target.id)
+                else:
+                    raise Reject(f"{mod}: dataclass {qual}: only annotated fields without defaults are translated")
+            self.dataclasses[qual] = fields
+            return f"(* dataclass {qual}({', '.join(fields)}): objects VObj \"{qual}\" [fields] *)\n"
         node = self.find(tree, mod, qual)
         if isinstance(node, ast.Assign) and not (isinstance(node.value, (ast.List, ast.Tuple, ast.Constant))):
             # a set of Tags members: `{Tags.A, ...}` or `set(Tags) - {...}` (same reader as the table translator)
@@ -1048,6 +1082,21 @@ class Translator:
         return text
 
 
+def write_stub(out: Path, msg: str):
+    """The translator rejected the source: leave a file that deliberately does NOT check (so that `make` can
+    still compute dependencies and every file that needs the translation fails), and remove the compiled
+    form of the previous translation so that nothing stale can be loaded."""
+    safe = msg.replace("*)", "* )").replace("(*", "( *").replace('"', "'")
+    out.parent.mkdir(parents=True, exist_ok=True)
+    out.write_text("(* GENERATED STUB: the source translator REJECTED /repo's source:\n   " + safe + "\n"
+                   "   This file deliberately does not check: every proof about the translated code is broken. *)\n"
+                   "Definition translator_rejected_the_source : False := I.\n")
+    for suf in (".vo", ".vos", ".vok", ".glob"):
+        f = out.with_suffix(suf)
+        if f.exists():
+            f.unlink()
+
+
 def main():
     if len(sys.argv) != 3:
         print(__doc__, file=sys.stderr)
@@ -1057,8 +1106,7 @@ def main():
         text = Translator(repo).run()
     except Reject as ex:
         print(f"gen_source: REJECTED: {ex}", file=sys.stderr)
-        if out.exists():
-            out.unlink()
+        write_stub(out, str(ex))
         sys.exit(2)
     if not out.exists() or out.read_text() != text:
         out.parent.mkdir(parents=True, exist_ok=True)
